@@ -326,11 +326,13 @@ def claim_deadline(S, D):
 
     def line_fn(v):
         k = v[0]
-        return ' '.join(str(x) for x in [k] + list(v[1:1 + 2 * k]))
-    # the live probe feeds exactly the parts of the list and completes the payment with the last one
-    b = Binding('claim_deadline_probe', flat + [z3.If(complete, 1, 0)], [z3.If(g_ev, 1, 0), z3.If(g_ev, amt, 0), z3.If(g_ev, E.en_payload(dl, 'Some', 1, 0, 'u32', mem, 'spec').t, 0)],
+        return ' '.join(str(x) for x in [k] + list(v[1:1 + 2 * k]) + [v[-2]])
+    # the live probe feeds exactly the parts of the list and completes the payment with the last one (purposes agree, the
+    # MPP bookkeeping is the real one); with the flag set, an earlier claim of the same hash is still in flight
+    env_ok = z3.And(z3.Not(differs), chk_d == 0, chk_b)
+    b = Binding('claim_deadline_probe', flat + [z3.If(claiming, 1, 0), z3.If(env_ok, 1, 0)], [z3.If(g_ev, 1, 0), z3.If(g_ev, amt, 0), z3.If(g_ev, E.en_payload(dl, 'Some', 1, 0, 'u32', mem, 'spec').t, 0)],
                 line_fn=line_fn, which='oracle_tu', panic=panic, via_solver=True,
-                domain=[(1, NP)] + [(HTLC_FAIL_BACK_BUFFER, 1 << 20), (1, 1 << 30)] * NP + [(1, 1)])
+                domain=[(1, NP)] + [(HTLC_FAIL_BACK_BUFFER, 1 << 20), (1, 1 << 30)] * NP + [(0, 1), (1, 1)])
     S.prove(ids[0], E, pre + [complete], z3.And(g_ev, ret, X.zint(dl.d) == 1, E.en_payload(dl, 'Some', 1, 0, 'u32', mem, 'spec').t == mn - HTLC_FAIL_BACK_BUFFER, amt == total),
             'when the last part completes a payment, PaymentClaimable announces claim_deadline = (the EARLIEST cltv_expiry over all its parts) - HTLC_FAIL_BACK_BUFFER and the sum of the parts\' values: claiming strictly below that height is safe for every part (C08.c: below it no part is failed back)',
             [b], bounds='<= %d parts in any order, all u32 expiries >= 39, part values 1 .. 2^50 msat; map / purpose / MPP bookkeeping stubbed' % NP)
